@@ -39,6 +39,7 @@ KF_CHUNK = "KF-C03-inline-datum-chunked"
 KF_EMPTYLIST = "KF-C03-datum-empty-list"
 KF_CEXT = "KF-C03-cext-backend"
 KF_DEFLIST = "KF-C03-inline-datum-definite-list"
+KF_WDEFLIST = "KF-C03-witness-datum-definite-list"
 
 WORKER = os.path.join(os.path.dirname(os.path.dirname(os.path.abspath(__file__))), "workers", "c03_worker.py")
 
@@ -104,16 +105,11 @@ def _empty_list(d):
 
 
 TRAITS = [
-    ("inline datum holding a byte string over 64 bytes (chunked on the wire)", KF_CHUNK,
-     lambda tx, w: w.plutus_bytes == "canonical" and any(n[0] == "bytes" and len(n[1]) > 64 for d in inline_datums(tx) for n in walk_pdata(d)),
-     lambda tx, w: (with_inline_datums(tx, lambda d: map_pdata(d, lambda n: ["bytes", n[1][:64]] if n[0] == "bytes" and len(n[1]) > 64 else n)), w)),
-    ("inline datum with a definite-length non-empty list (or field list) that is not directly inside an indefinite list", KF_DEFLIST,
-     lambda tx, w: w.plutus_lists == "definite" and any((n[0] == "list" and n[1]) or (n[0] == "constr" and n[2])
-                                                        for d in inline_datums(tx) for n in walk_pdata(d)),
-     lambda tx, w: (tx, with_lists(w, "canonical"))),
-    ("inline datum that is the empty list (80)", KF_EMPTYLIST,
-     lambda tx, w: w.plutus_lists != "indefinite" and any(_empty_list(d) for d in inline_datums(tx)),
-     lambda tx, w: (with_inline_datums(tx, lambda d: ["int", 0] if _empty_list(d) else d), w)),
+    # (inline datums: chunked byte strings, definite-length lists and the empty list were recorded defects; since the repair
+    #  that keeps the received bytes of an inline datum they are ordinary supported cases, judged like the others)
+    ("witness-set datum that is a non-empty definite-length list at top level (82 ..)", KF_WDEFLIST,
+     lambda tx, w: w.plutus_lists == "definite" and any(d[0] == "list" and d[1] for d in (tx.get("wits") or {}).get("data") or []),
+     lambda tx, w: ({**tx, "wits": {**tx["wits"], "data": [["constr", 0, d[1]] if d[0] == "list" and d[1] else d for d in tx["wits"]["data"]]}}, w)),
     ("witness-set datum that is the empty list (80)", KF_EMPTYLIST,
      lambda tx, w: w.plutus_lists != "indefinite" and any(_empty_list(d) for d in (tx.get("wits") or {}).get("data") or []),
      lambda tx, w: ({**tx, "wits": {**tx["wits"], "data": [["int", 0] if _empty_list(d) else d for d in tx["wits"]["data"]]}}, w)),
